@@ -22,6 +22,19 @@ Direct oracle (the property on the implementation alone): the view can be built 
 every id whose synchronisation had returned has a row; every row is a complete image whose costs are
 the objective's value for its vector (recomputed here), one row per id.
 
+Two further streams (added after the red team):
+* transient failures: the scenario's objective raises RuntimeError / TimeoutError at scripted global call
+  numbers (1..4 failures in a row, on the first / middle / last design, serial and 2 workers); Job.evaluate
+  draws a replacement vector (reported by a wrapper of VectorAndNumbers.gen_vector -> `SFail i v`) and tries
+  again; crash points at every objective call, the retries included, and at every boundary.  The model (a
+  failed attempt performs NO store statement) predicts the recovered rows.
+* large rows: individual.custom carries a field of 130 000 / 400 000 / 1 000 000 integers (about 1 / 3 / 8 MB
+  of JSON, more than SQLite's page cache, so pages reach the database file before the commit) or 30 rows of
+  150 kB written in ONE sync_all transaction; the rows are synchronised again (UPDATE, with an image of
+  another length) and the writer is killed between execute and commit or by SIGKILL inside the commit; a
+  fresh process must open the file and find, for every row, the field of its vector and the population_id
+  of the last committed statement.
+
 Nothing in /repo is changed: the crash points are injected by the proxy and by the scenario's objective.
 """
 import json
@@ -36,16 +49,19 @@ from harness.core import ll, pl
 PROP = "C11"
 THEOREMS = {"Artap.Props.C11": [
     "C11_crash_legal_consistent", "C11_jobs_merge_legal", "C11_run_with_final_sync_all_legal",
-    "C11_crash_prefix_consistent", "C11_good_row_readable", "C11_meta_survives"]}
+    "C11_crash_prefix_consistent", "C11_jobs_retry_merge_legal", "C11_crash_prefix_consistent_retry",
+    "C11_write_after_failed_attempt_illegal", "C11_good_row_readable", "C11_meta_survives"]}
 RUN_MODULES = ["Run.C11Run"]
 AXIOMS_OK = []
 TRUSTED = [
     "Coq 8.16.1 kernel, vm_compute for model evaluation (no native_compute)",
-    "hand-written model Model/Crash.v (on top of Model/Store.v, C10) tied to job.py / datastore.py by this correspondence run",
+    "hand-written model Model/Crash.v (on top of Model/Store.v, C10) tied to job.py / datastore.py by this correspondence run, "
+    "including the failure path of Job.evaluate (scripted transient failures of the objective: `SFail`, no store statement)",
     "NOT MODELLED, assumed and exercised: one SQLite commit is atomic and durable against process death (rollback journal in the "
     "default DELETE mode - `PRAGMA journal_mode = ON` is not a valid mode and leaves the default; `synchronous = 0` is enough for "
     "process death, not for power loss), statements of a connection that dies before its commit are rolled back, and the file stays "
-    "openable; the harness checks on every run that every writing connection is in a journalled mode",
+    "openable; the harness checks on every run that every writing connection is in an on-disk journalled mode (not OFF / MEMORY), "
+    "and kills writers of rows larger than the page cache between execute and commit (the case where the journal is needed)",
     "the order of effects inside Job.evaluate / sync_individual / sync_all (`legal`) is proved for every interleaving of the job step "
     "lists and checked on every reported trace; the assignment state := EVALUATED is not observable from outside and is placed "
     "between calc_signed_costs and the store call as job.py 42-49 has it (its effect - the state in the row - is compared)",
@@ -106,8 +122,18 @@ def server_main():
     import logging
 
     CTL = {"fd": None, "armed": False, "k": 0, "crash_at": None, "obj_calls": 0, "obj_crash": None, "conns": 0,
-           "lock": threading.Lock(), "jitter": 0.0, "journal_modes": set()}
+           "lock": threading.Lock(), "jitter": 0.0, "journal_modes": set(), "fail_at": frozenset(), "payload": 0}
     UPSERT = "INSERT INTO individuals"
+    import re
+    POP = re.compile(r'"population_id": (-?\d+)')
+
+    def field(x, n):
+        """the deterministic `field solution` (n integers) that belongs to design vector x: stored in individual.custom"""
+        import numpy as np
+        a = int(round(x[0] * 1000)) % 9973
+        b = int(round(x[1] * 1000)) % 9973
+        i = np.arange(n, dtype=np.int64)
+        return ((a * (i + 1) + b * (i % 7) + i) % 1000003).tolist()
 
     def tok(x):
         import numpy as np
@@ -150,7 +176,8 @@ def server_main():
                     emit({"e": "journal", "c": self._conn._cid, "mode": mode})
                 r = self._real.execute(sql, params)
                 self._conn._dirty = True
-                emit({"e": "exec", "c": self._conn._cid, "i": params[0]})
+                pm = POP.search(params[1][:4000]) if isinstance(params[1], str) else None
+                emit({"e": "exec", "c": self._conn._cid, "i": params[0], "p": int(pm.group(1)) if pm else None})
                 boundary("after execute")
                 return r
             return self._real.execute(sql, params)
@@ -226,6 +253,11 @@ def server_main():
             if CTL["obj_crash"] == n:
                 emit({"e": "crash", "k": n, "at": "objective"})
                 os._exit(78)
+            if n in CTL["fail_at"]:         # an ordinary failed evaluation: Job.evaluate draws a new vector and tries again
+                emit({"e": "fail", "i": individual.id, "t": threading.get_ident()})
+                raise (RuntimeError if n % 2 == 0 else TimeoutError)("scripted failure of objective call %d" % n)
+            if CTL["payload"]:
+                individual.custom["field"] = field(individual.vector, CTL["payload"])
             if CTL["jitter"]:
                 time.sleep(CTL["jitter"] * ((individual.id * 7919) % 13) / 13.0)
             x = individual.vector
@@ -252,6 +284,15 @@ def server_main():
         return new
 
     IndividualNSGAII.copy = copy
+    from artap.utils import VectorAndNumbers
+    real_gen_vector = VectorAndNumbers.gen_vector          # bound class method
+
+    def gen_vector(design_parameters):
+        v = real_gen_vector(design_parameters)
+        emit({"e": "genvec", "t": threading.get_ident(), "v": tok(v)})
+        return v
+
+    VectorAndNumbers.gen_vector = staticmethod(gen_vector)
 
     def writer(req):
         sc = req["scenario"]
@@ -280,6 +321,9 @@ def server_main():
             return r
 
         def sync_all():
+            if sc.get("resync"):            # the caller has changed every recorded individual since Job.evaluate stored it (as an
+                for i in problem.individuals:       # algorithm that numbers its populations does): every statement is a real UPDATE
+                    i.population_id = 0
             ids = [i.id for i in problem.individuals]
             emit({"e": "plan", "objs": [[i.id, isinstance(i.state, str)] for i in problem.individuals]})
             r = real_all()
@@ -294,9 +338,15 @@ def server_main():
         CTL["crash_at"] = crash["k"] if crash["kind"] == "boundary" else None
         CTL["obj_crash"] = crash["k"] if crash["kind"] == "objective" else None
         CTL["jitter"] = sc.get("jitter", 0.0)
+        CTL["fail_at"] = frozenset(sc.get("fail", ()))
+        CTL["payload"] = sc.get("payload", 0)
         CTL["armed"] = True                 # the store has been created: crash points start here
         emit({"e": "armed"})
         alg.run()
+        if sc.get("resync"):                # what every population algorithm does next: set population_id, synchronise again (UPDATE)
+            for individual in list(problem.individuals):
+                individual.population_id = 12       # (another number of digits: the image moves inside its pages)
+                store.sync_individual(individual)
         emit({"e": "finished"})
         os._exit(0)
 
@@ -307,7 +357,11 @@ def server_main():
             out["name"] = view.name
             out["parameters"] = [p.get("name") for p in view.parameters]
             out["costs"] = [c.get("name") for c in view.costs]
-            out["rows"] = [[i.id, tok(i.vector), tok(i.costs), tok(i.costs_signed), i.state, sorted(i.features.keys())] for i in view.individuals]
+            out["rows"] = [[i.id, tok(i.vector), tok(i.costs), tok(i.costs_signed), i.state, sorted(i.features.keys()), i.population_id]
+                           for i in view.individuals]
+            npay = req["scenario"].get("payload", 0)
+            if npay:                        # the stored field must be the complete field of the stored vector
+                out["field_bad"] = [i.id for i in view.individuals if i.custom.get("field") != field(i.vector, npay)]
             con = real_connect(req["db"])
             raw = con.execute("SELECT id, individual FROM individuals").fetchall()
             con.close()
@@ -351,7 +405,7 @@ def server_main():
                         pass
 
         def watchdog():
-            time.sleep(8.0)                 # a writer that hangs (e.g. retrying for ever on a locked file) is stopped
+            time.sleep(req["scenario"].get("watchdog", 8.0))                 # a writer that hangs (e.g. retrying for ever on a locked file) is stopped
             kill()
         threading.Thread(target=watchdog, daemon=True).start()
         if kind == "sigkill":
@@ -406,9 +460,13 @@ def server_main():
             pre_evs.append({"e": "reopen"})
         evs, status, lived = in_child(writer, req, req["crash"])
         evs = pre_evs + evs
+        try:
+            jbytes = os.path.getsize(req["db"] + "-journal")
+        except OSError:
+            jbytes = None
         rd, _, _ = in_child(reader, req)
         proto.write(json.dumps({"events": evs, "status": status, "read": rd[0] if rd else {"error": "reader died"},
-                                "writer_s": lived}) + "\n")
+                                "writer_s": lived, "journal_bytes_at_death": jbytes}) + "\n")
         proto.flush()
 
 
@@ -460,7 +518,9 @@ def run(ctx):
 
     hist = {"scenarios": [], "crash_points": {"objective": 0, "before execute": 0, "after execute": 0, "after commit": 0, "sigkill": 0,
                                               "sigkill_commit": 0, "none": 0}, "exact": 0, "interval": 0, "rows_read": 0, "returned_ids": 0,
-            "rows_in_flight_observed": 0, "hot_journal_left": 0, "journal_modes": {}, "writer_died_by": {}}
+            "rows_in_flight_observed": 0, "hot_journal_left": 0, "journal_modes": {}, "writer_died_by": {}, "failed_attempts": 0,
+            "crash_with_failed_attempt_before": 0, "crash_inside_retry_or_between_failure_and_success": 0, "big_row_kills": 0,
+            "hot_journal_bytes_max": 0}
     cases, expected, meta = [], [], []
 
     def fail(what, sc, crash, clause, **kw):
@@ -474,15 +534,30 @@ def run(ctx):
         m = 1 if sc["alg"] == "sweep1" else 2
         designs, obj, sg, trace, started = [], [], [], [], {}
         begun, returned, plan = [], [], {}
+        failing, retried = {}, set()            # thread -> id whose objective call has just raised; ids that go round the loop again
+        pend_pop, comm_pop, seen_pop = {}, {}, {}   # population_id in the statements: per connection pending / last committed / all, per id
         for e in evs:
             k = e.get("e")
             if k == "start":
                 started[e["i"]] = e["v"]
-                trace.append("SNew %s %s" % (zl(e["i"]), enc_list(e["v"])))
+                if e["i"] in retried:           # the retry of a failed attempt: the SAME object, with the vector SFail gave it
+                    retried.discard(e["i"])
+                else:
+                    trace.append("SNew %s %s" % (zl(e["i"]), enc_list(e["v"])))
                 trace.append("SStart %s" % zl(e["i"]))
+            elif k == "fail":
+                failing[e["t"]] = e["i"]
+                hist["failed_attempts"] += 1
+            elif k == "genvec":
+                if e["t"] in failing:           # Job.evaluate's except branch: the replacement vector (other callers: generators)
+                    i = failing.pop(e["t"])
+                    retried.add(i)
+                    trace.append("SFail %s %s" % (zl(i), enc_list(e["v"])))
             elif k == "reopen":
                 trace.append("SReopen")
                 begun = []
+                pend_pop.clear()
+                retried.clear()
             elif k == "costs":
                 obj.append((started[e["i"]], e["c"]))
                 trace.append("SCosts %s" % zl(e["i"]))
@@ -498,12 +573,16 @@ def run(ctx):
             elif k == "exec":
                 old = plan.get(e["i"], [False]).pop(0) if plan.get(e["i"]) else False
                 trace.append("%s %d %s" % ("SExecOld" if old else "SExec", e["c"], zl(e["i"])))
+                pend_pop.setdefault(e["c"], []).append((e["i"], e.get("p")))
+                seen_pop.setdefault(e["i"], set()).add(e.get("p"))
             elif k == "commit_begin":
                 begun.append(e["c"])
             elif k == "commit":
                 if e["c"] in begun:
                     begun.remove(e["c"])
                 trace.append("SCommit %d" % e["c"])
+                for i, pp in pend_pop.pop(e["c"], []):
+                    comm_pop[i] = pp
             elif k == "ret":
                 returned.append(e["i"])
                 trace.append("SReturn %s" % zl(e["i"]))
@@ -555,6 +634,18 @@ def run(ctx):
                 if not ok_signed or state not in (("evaluated", "empty", None) if sc.get("pre") else ("evaluated", "empty")):
                     fail("row %d holds a partially written individual: state %r, signed costs %r, costs %r" % (iid, state, signed, costs),
                          sc, crash, "partial row", id=iid)
+            if rd.get("field_bad"):
+                fail("rows %r hold a partially written individual: the stored field (individual.custom) is not the field of the stored "
+                     "vector" % rd["field_bad"], sc, crash, "partial row", ids=rd["field_bad"])
+            # the image a row shows is the one of the last COMMITTED statement for its id (monitor of the assumption on SQLite:
+            # uncommitted statements vanish, committed ones stay), seen on a field the 4-field projection does not cover
+            for r in rd["rows"]:
+                if len(r) > 6 and r[0] in seen_pop and None not in seen_pop[r[0]]:
+                    okp = (r[6] == comm_pop.get(r[0])) if exact else (r[6] in seen_pop[r[0]])
+                    if not okp:
+                        ctx.mismatches.append({"what": "row %d shows population_id %r; the last committed statement for it had %r (executed so "
+                                                       "far: %r)" % (r[0], r[6], comm_pop.get(r[0]), sorted(seen_pop[r[0]])),
+                                               "correspondence": "committed image", "case": {"scenario": sc, "crash": crash}})
             hist["rows_read"] += len(ids)
             hist["hot_journal_left"] += bool(rd.get("journal_left"))
         hist["returned_ids"] += len(set(returned))
@@ -568,7 +659,7 @@ def run(ctx):
         conn_of = {}
         for e in evs:
             k = e.get("e")
-            if k in ("start", "costs", "signed", "ret"):
+            if k in ("start", "costs", "signed", "ret", "fail"):
                 per.setdefault(e["i"], []).append(k)
             elif k == "exec":
                 per.setdefault(e["i"], []).append("exec")
@@ -577,10 +668,15 @@ def run(ctx):
                 for i in conn_of.get(e["c"], [])[-1:]:
                     if len(conn_of[e["c"]]) == 1:
                         per.setdefault(i, []).append("commit")
-        for i, seq in per.items():
+        for i, seq0 in per.items():
+            seq = seq0
+            nf = 0
+            while seq[:2] == ["start", "fail"] and nf < 4:      # failed attempts: nothing but the objective call, at most four
+                seq = seq[2:]
+                nf += 1
             if "start" in seq and seq[:6] != ["start", "costs", "signed", "exec", "commit", "ret"]:
-                ctx.mismatches.append({"what": "the steps of design %d are %r: not the job list of Model/Crash.v (evaluate, then synchronise "
-                                               "and commit at once on a connection of its own)" % (i, seq[:8]),
+                ctx.mismatches.append({"what": "the steps of design %d are %r: not the job list of Model/Crash.v ((objective call that raises)* evaluate, "
+                                               "then synchronise and commit at once on a connection of its own)" % (i, seq0[:12]),
                                        "correspondence": "job shape", "case": sc})
                 return
 
@@ -589,6 +685,26 @@ def run(ctx):
         no = sum(1 for e in evs if e["e"] == "start")
         return nb, no
 
+    def directed_points(sc, evs):
+        """large rows: kills between an execute and its commit (INSERT of Job.evaluate, UPDATEs of sync_all in one transaction,
+        UPDATE of the re-synchronisation), and SIGKILLs into the commits; quick: a handful, thorough: all of them"""
+        n = sc["n"]
+        after, k, ncommit = [], 0, 0
+        for e in evs:
+            if e["e"] == "exec":
+                after.append(k + 1)
+                k += 2
+            elif e["e"] == "commit":
+                k += 1
+                ncommit += 1
+        if ctx.thorough or len(after) != 3 * n:
+            pts = [{"kind": "boundary", "k": j} for j in after]
+            pts += [{"kind": "sigkill_commit", "k": j} for j in range(ncommit)]
+            return pts if len(pts) <= 24 else rng.sample(pts, 24)
+        js = sorted({0, n + (n - 1) // 2, 2 * n - 1, 2 * n, 3 * n - 1})      # exec number: first INSERT, middle / last of sync_all, first / last re-sync
+        return [{"kind": "boundary", "k": after[j]} for j in js] + [{"kind": "sigkill_commit", "k": j} for j in sorted({n, n + 1})]
+
+    few = (ctx.pick(2, 6), ctx.pick(2, 6))
     scenarios = [({"alg": "sweep", "n": 6, "seed": 11, "procs": 1}, "all"),
                  ({"alg": "sweep1", "n": 3, "seed": 12, "procs": 1}, "all"),
                  ({"alg": "nsga2", "n": 4, "g": 2, "seed": 13, "procs": 1}, ctx.pick(40, "all")),
@@ -598,7 +714,25 @@ def run(ctx):
                  ({"alg": "nsga2", "n": 3, "g": 2, "seed": 19, "procs": 1,
                    "pre": {"alg": "sweep", "n": 4, "seed": 20, "procs": 1}}, ctx.pick(20, "all")),
                  ({"alg": "sweep", "n": 8, "seed": 15, "procs": 2, "jitter": 0.002}, ctx.pick(20, 60)),
-                 ({"alg": "nsga2", "n": 4, "g": 2, "seed": 16, "procs": 2, "jitter": 0.002}, ctx.pick(8, 40))]
+                 ({"alg": "nsga2", "n": 4, "g": 2, "seed": 16, "procs": 2, "jitter": 0.002}, ctx.pick(8, 40)),
+                 # transient failures of the objective (scripted per global call number): Job.evaluate draws a replacement vector
+                 # and tries again, at most four times; the failure path writes NOTHING to the store.  Crash points: every
+                 # objective call (the retries included) and every boundary.  1 / 2 / 4 / 3+1 failures in a row, on the
+                 # first / middle / last design of three
+                 ({"alg": "sweep", "n": 3, "seed": 31, "procs": 1, "fail": [0]}, "all", few),
+                 ({"alg": "sweep", "n": 3, "seed": 32, "procs": 1, "fail": [1, 2]}, "all", few),
+                 ({"alg": "sweep1", "n": 3, "seed": 33, "procs": 1, "fail": [2, 3, 4, 5]}, "all", few),
+                 ({"alg": "sweep", "n": 3, "seed": 34, "procs": 1, "fail": [0, 1, 2, 4]}, "all", few),
+                 ({"alg": "nsga2", "n": 3, "g": 2, "seed": 35, "procs": 1, "fail": [1, 4, 5]}, ctx.pick(16, "all"), few),
+                 ({"alg": "sweep", "n": 6, "seed": 36, "procs": 2, "jitter": 0.002, "fail": [0, 3, 4, 8]}, ctx.pick(14, 60), few),
+                 # large rows (individual.custom holds a field of `payload` integers: about 1, 3 and 8 MB of JSON, more than SQLite's
+                 # page cache, so pages reach the database file BEFORE the commit), synchronised a second time (UPDATE) and killed
+                 # between execute and commit; many medium rows in ONE sync_all transaction killed before its commit.
+                 # A fresh process must open the file and find the last committed images.
+                 ({"alg": "sweep", "n": 2, "seed": 41, "procs": 1, "payload": 130000, "resync": True, "watchdog": 60.0}, "directed", (0, 0)),
+                 ({"alg": "sweep", "n": 2, "seed": 42, "procs": 1, "payload": 400000, "resync": True, "watchdog": 60.0}, "directed", (0, 0)),
+                 ({"alg": "sweep1", "n": 1, "seed": 43, "procs": 1, "payload": 1000000, "resync": True, "watchdog": 60.0}, "directed", (0, 0)),
+                 ({"alg": "sweep", "n": 30, "seed": 44, "procs": 1, "payload": 20000, "resync": True, "watchdog": 60.0}, "directed", (0, 0))]
     if ctx.thorough:
         scenarios += [({"alg": "sweep", "n": 30, "seed": 21, "procs": 1}, "all"),
                       ({"alg": "sweep", "n": 30, "seed": 22, "procs": 4, "jitter": 0.002}, 120),
@@ -606,11 +740,23 @@ def run(ctx):
                       ({"alg": "nsga2", "n": 8, "g": 3, "seed": 24, "procs": 4, "jitter": 0.002}, 80),
                       ({"alg": "epsmoea", "n": 6, "g": 3, "seed": 25, "procs": 1}, 200),
                       ({"alg": "epsmoea", "n": 6, "g": 2, "seed": 26, "procs": 2, "jitter": 0.002}, 60)]
+        # the whole grid: 1..4 failures in a row on the first / middle / last design, serial (all points) and two workers
+        for kf in (1, 2, 3, 4):
+            for pos in (0, 1, 2):
+                scenarios.append(({"alg": "sweep", "n": 3, "seed": 50 + 4 * pos + kf, "procs": 1, "fail": list(range(pos, pos + kf))}, "all", few))
+                scenarios.append(({"alg": "sweep", "n": 4, "seed": 70 + 4 * pos + kf, "procs": 2, "jitter": 0.002,
+                                   "fail": list(range(pos, pos + kf))}, 12, few))
+        scenarios += [({"alg": "nsga2", "n": 4, "g": 2, "seed": 90, "procs": 1, "fail": [0, 1, 2, 3, 6, 9, 10]}, 80, few),
+                      ({"alg": "epsmoea", "n": 4, "g": 2, "seed": 91, "procs": 1, "fail": [2, 3, 7, 11]}, 80, few),
+                      ({"alg": "nsga2", "n": 4, "g": 2, "seed": 92, "procs": 2, "jitter": 0.002, "fail": [1, 2, 5, 9]}, 40, few),
+                      ({"alg": "sweep", "n": 3, "seed": 45, "procs": 1, "payload": 400000, "resync": True, "watchdog": 90.0}, "directed", (0, 0)),
+                      ({"alg": "sweep", "n": 48, "seed": 46, "procs": 1, "payload": 16000, "resync": True, "watchdog": 90.0}, "directed", (0, 0))]
+    scenarios = [t if len(t) == 3 else (t[0], t[1], (ctx.pick(4, 30), ctx.pick(5, 30))) for t in scenarios]
     try:
         # reference runs (no crash): number of crash points, shape of the job lists
-        refs = [submit(k, sc, {"kind": "none"}) for k, (sc, _) in enumerate(scenarios)]
+        refs = [submit(k, sc, {"kind": "none"}) for k, (sc, _, _) in enumerate(scenarios)]
         k = len(scenarios)
-        for (sc, how), fut in zip(scenarios, refs):
+        for (sc, how, nkill), fut in zip(scenarios, refs):
             res = fut.result()
             evs = res["events"]
             if not any(e.get("e") == "finished" for e in evs):
@@ -621,16 +767,22 @@ def run(ctx):
                 shape_check(sc, evs)
             nb, no = count_points(evs)
             points = [{"kind": "boundary", "k": j} for j in range(nb)] + [{"kind": "objective", "k": j} for j in range(no)]
-            if how != "all" and how < len(points):
+            if how == "directed":
+                points = directed_points(sc, evs)
+                hist["big_row_kills"] += len(points)
+            elif how != "all" and how < len(points):
                 points = rng.sample(points, how)
+            if sc.get("fail") and sorted(e["e"] == "fail" for e in evs).count(True) != len(sc["fail"]):
+                ctx.mismatches.append({"what": "reference run: %d of the %d scripted failures happened" % (
+                    sum(e["e"] == "fail" for e in evs), len(sc["fail"])), "correspondence": "writer", "case": sc})
             hist["scenarios"].append(dict(sc, boundaries=nb, objective_calls=no, crash_points_run=len(points), duration_s=round(res["writer_s"], 3)))
             jobs.append((sc, {"kind": "none"}, fut))
             for cp in points:
                 jobs.append((sc, cp, submit(k, sc, cp)))
                 k += 1
             ncommit = sum(1 for e in evs if e["e"] == "commit")
-            kills = [{"kind": "sigkill", "delay": rng.random() * res["writer_s"]} for _ in range(ctx.pick(4, 30))]
-            kills += [{"kind": "sigkill_commit", "k": j} for j in rng.sample(range(ncommit), min(ncommit, ctx.pick(5, 30)))]
+            kills = [{"kind": "sigkill", "delay": rng.random() * res["writer_s"]} for _ in range(nkill[0])]
+            kills += [{"kind": "sigkill_commit", "k": j} for j in rng.sample(range(ncommit), min(ncommit, nkill[1]))]
             for cp in kills:
                 jobs.append((sc, cp, submit(k, sc, cp)))
                 k += 1
@@ -647,13 +799,25 @@ def run(ctx):
             st = res["status"]
             how = "signal %d" % (st & 0x7f) if st & 0x7f else "exit %d" % (st >> 8)
             hist["writer_died_by"][how] = hist["writer_died_by"].get(how, 0) + 1
+            open_failed = set()
+            for ev in evs:
+                if ev.get("e") == "fail":
+                    open_failed.add(ev["i"])
+                elif ev.get("e") == "ret":
+                    open_failed.discard(ev["i"])
+            if crash["kind"] != "none" and any(ev.get("e") == "fail" for ev in evs):
+                hist["crash_with_failed_attempt_before"] += 1
+                hist["crash_inside_retry_or_between_failure_and_success"] += bool(open_failed)
+            if res.get("journal_bytes_at_death"):
+                hist["hot_journal_bytes_max"] = max(hist["hot_journal_bytes_max"], res["journal_bytes_at_death"])
             c, e, mt = to_case(sc, crash, res, exact)
             cases.append(c)
             expected.append(e)
             meta.append(mt)
             if not exact and mt["rows"] is not None and len(mt["in_flight_connections"]) > 0:
                 hist["rows_in_flight_observed"] += 1
-            ctx.count((sc["alg"], sc["n"], sc.get("g"), sc["procs"], "pre" in sc, crash["kind"], crash.get("k"), len(evs), tuple(mt["rows"] or ())),
+            ctx.count((sc["alg"], sc["n"], sc.get("g"), sc["procs"], "pre" in sc, tuple(sc.get("fail", ())), sc.get("payload", 0),
+                       crash["kind"], crash.get("k"), len(evs), tuple(mt["rows"] or ())),
                       nontrivial=crash["kind"] != "none")
             if sc["alg"] == "sweep1" and crash["kind"] == "boundary" and crash["k"] in (1, 2):
                 ctx.sample({"case": mt, "events": evs})
@@ -665,21 +829,29 @@ def run(ctx):
     ctx.coq_compare("c11", HEADER, "c11_case", "c11_obs", "c11_run", "c11_eqb", cases, expected, meta, shard=ctx.pick(25, 60))
     ctx.extra.update({"crash_points": sum(v for kk, v in hist["crash_points"].items() if kk != "none"), "distribution": hist})
     ctx.rule = ("one run of the writer per crash point: every objective call and every statement / commit boundary of the serial scenarios "
-                "(sampled for the larger ones), sampled boundaries and random-instant SIGKILLs of the parallel ones; a case is non-trivial "
+                "(sampled for the larger ones), sampled boundaries and random-instant SIGKILLs of the parallel ones; the same with scripted transient failures of the "
+                "objective (1-4 in a row; crash points inside the retries); directed kills between execute and commit (and SIGKILL inside the "
+                "commit) of rows / transactions larger than the page cache; a case is non-trivial "
                 "when the writer was killed; distinct = distinct (scenario, crash point, number of reported events, row ids found)")
 
 
 LEVEL_TEXT = ("Machine-checked Coq theorems over a step model of Job.evaluate / sync_individual / sync_all on top of the C10 store model "
-              "(durable state = last committed table; a synchronisation = [execute upsert; commit] on its own connection; crash point = any "
-              "prefix of the step sequence): for every trace that obeys the order of the code, cut anywhere, the recovered table has one row "
-              "per id, a row for every id whose synchronisation had returned, and only complete images whose costs and signed costs are the "
-              "objective's for the stored vector (readable by the view); every interleaving of the per-design job step lists - serial or "
-              "parallel evaluation - followed by the final sync_all is such a trace; the problem rows are untouched. Tied to the code on every "
-              "run by killing a real writer process (os._exit inside every objective call and before / between / after every execute and "
-              "commit, SIGKILL at random instants, serial and 2-4 worker threads; sweep, NSGA-II, eps-MOEA) and comparing what a fresh process "
-              "reads from the file with the model's prediction for the reported prefix.")
+              "(durable state = last committed table; a synchronisation = [execute upsert; commit] on its own connection; a failed attempt = "
+              "[objective entered; it raises, replacement vector, state EMPTY] with no store statement; crash point = any prefix of the step "
+              "sequence): for every trace that obeys the order of the code, cut anywhere, the recovered table has one row per id, a row for "
+              "every id whose synchronisation had returned, and only complete images whose costs and signed costs are the objective's for the "
+              "stored vector (readable by the view); every interleaving of the per-design job step lists - serial or parallel evaluation, any "
+              "number of failed attempts per design - followed by the final sync_all is such a trace, and a trace with a store statement "
+              "between a failed attempt and its retry is not; the problem rows are untouched. Tied to the code on every run by killing a real "
+              "writer process (os._exit inside every objective call - the retries of scripted transient failures included - and before / "
+              "between / after every execute and commit, SIGKILL at random instants and inside commits, serial and 2-4 worker threads; sweep, "
+              "NSGA-II, eps-MOEA; second sessions on the same file; rows of 1-8 MB and 4.5 MB transactions, larger than SQLite's page cache, "
+              "re-synchronised and killed between execute and commit) and comparing what a fresh process reads from the file with the model's "
+              "prediction for the reported prefix.")
 LEVEL_NOTE = ("proof, PARTIAL: the theorems are about the artap-level protocol (what is executed and committed when). SQLite's rollback journal, "
               "the file system and the OS - i.e. that one commit is atomic and durable against process death and that uncommitted statements "
-              "vanish - are exercised by the kill runs, NOT modelled or proved; power loss is outside (synchronous = 0). The order `legal` is "
-              "proved for interleavings of job lists + final sync_all and checked (not proved) on the reported traces of NSGA-II / eps-MOEA, "
-              "whose later re-synchronisations and copies the general theorem covers. Correspondence is sampled.")
+              "vanish - are exercised by the kill runs (also with transactions that spill to the database file before the commit), NOT "
+              "modelled or proved; power loss is outside (synchronous = 0). The order `legal` is proved for interleavings of job lists with "
+              "failed attempts + final sync_all and checked (not proved) on the reported traces of NSGA-II / eps-MOEA, whose later "
+              "re-synchronisations and copies the general theorem covers. The code's limit of five attempts is not modelled (the model "
+              "allows any number of failed attempts). Correspondence is sampled.")
